@@ -428,7 +428,17 @@ fn build_frame(p: &Plan, k: usize, f: &InFrame, pids: &[Val], rpc_from: &Option<
         }
         "link" => wire::pass_through(&Val::tuple(vec![Val::int(1), peer_pid(1), target_pid(f.target)]), None),
         "group_leader" => wire::pass_through(&Val::tuple(vec![Val::int(7), peer_pid(1), target_pid(f.target)]), None),
-        "unknown" => wire::pass_through(&Val::tuple(vec![Val::int(99), Val::atom("what"), target_pid(f.target)]), Some(&Val::atom("ever"))),
+        "unknown" => {
+            // a kind nobody knows: 99, or a number that only equals a known kind once it is cut down to 8, 16 or
+            // 32 bits (or has its sign dropped), in front of a tuple of that kind's shape
+            let wide = [256i128, 65_536, 1 << 32, -65_536, -256];
+            let off = wide[(f.seed >> 8) as usize % wide.len()];
+            match f.seed % 3 {
+                0 => wire::pass_through(&Val::tuple(vec![Val::int(99), Val::atom("what"), target_pid(f.target)]), Some(&Val::atom("ever"))),
+                1 => wire::pass_through(&Val::tuple(vec![Val::int(2 + off), Val::atom(""), target_pid(f.target)]), Some(&Val::atom("ever"))),
+                _ => wire::pass_through(&Val::tuple(vec![Val::int(if (f.seed >> 4) % 2 == 0 { 3 + off } else { -3 }), peer_pid(1), target_pid(f.target), Val::atom("ever")]), None),
+            }
+        }
         "tick" => Vec::new(),
         "junk_garbage" => {
             let mut r = Rng::new(f.seed);
